@@ -55,6 +55,7 @@ type Verifier struct {
 	pureCalls        map[string]bool
 	symDepth         int
 	opaqueCalls      bool
+	cutFired         map[int]bool // cuts of the function under analysis that matched an anchor on some path of some partition
 	nullableResults  bool // option nullable-results
 	opaqueWrites     map[string][]int // option opaque-writes F:k: the opaque callee F overwrites what its k-th argument (receiver = 0) points to
 	structSlices     bool // option struct-slices: slices of scalar-leaf aggregates are modelled leaf by leaf (SoAV)
@@ -202,6 +203,21 @@ func (v *Verifier) lookupContract(fn *ssa.Function) *Contract {
 				c = v.contracts[k]
 				break
 			}
+		}
+	}
+	if c == nil && fn.Pkg != nil && fn.Signature.Recv() == nil && !strings.HasPrefix(fn.Pkg.Pkg.Path(), "github.com/consensys/gnark-crypto") {
+		// a function of another module (standard library): an assumed contract stated as "func <pkg name>.<Func>"
+		// in one of the loaded contract files
+		suffix := "." + fn.Pkg.Pkg.Name() + "." + fn.Name()
+		var keys []string
+		for k, cand := range v.contracts {
+			if strings.HasSuffix(k, suffix) && cand.Assumed != "" {
+				keys = append(keys, k)
+			}
+		}
+		sort.Strings(keys)
+		if len(keys) > 0 {
+			c = v.contracts[keys[0]]
 		}
 	}
 	if c == nil {
@@ -744,6 +760,9 @@ func (fr *Frame) anchor(st *State, kind, target string, idx int) {
 		if kind == "store" && c.Index != idx {
 			continue
 		}
+		if fr.top && fr.v.cutFired != nil {
+			fr.v.cutFired[ci] = true
+		}
 		fr.applyAnnot(st, &c.Annot, fmt.Sprintf("cut%d", ci+1), true, true)
 	}
 }
@@ -914,6 +933,29 @@ func (fr *Frame) havocLoop(st *State, h *ssa.BasicBlock, body map[*ssa.BasicBloc
 			// a slice variable reassigned in the loop: with "option fresh-loop-slices" it becomes an arbitrary slice
 			// over its own backing array (sound when every value it takes is freshly allocated, as the contract
 			// author asserts with the option; recorded as an assumption)
+			if tc := fr.topContract(); tc != nil && tc.Options["loop-slice-windows"] != "" {
+				// "option loop-slice-windows": a slice variable that the loop re-slices stays a window of the object it
+				// views at loop entry (arbitrary offset, length and capacity at the head of an arbitrary iteration);
+				// at the end of every iteration the value must again be such a window, or an empty slice without
+				// capacity (nothing can be read through it): an obligation at the back edge
+				cs := cur.(*SliceV)
+				if fr.sliceHead == nil {
+					fr.sliceHead = map[*ssa.Phi]*SliceV{}
+				}
+				fr.sliceHead[p] = cs
+				max := big.NewInt(1 << 40)
+				off := v.F.RangedVar(nm+"@off", big.NewInt(0), max)
+				ln := v.F.RangedVar(nm+"@len", big.NewInt(0), max)
+				cp := v.F.RangedVar(nm+"@cap", big.NewInt(0), max)
+				st.pc = v.F.And(st.pc, v.F.Le(ln, cp))
+				nv := &SliceV{Obj: cs.Obj, Path: cs.Path, Off: off, Len: ln, Cap: cp}
+				st.env()[p] = nv
+				if p.Comment != "" {
+					st.srcVar[p.Comment] = nv
+					st.srcAdr[p.Comment] = false
+				}
+				continue
+			}
 			if fr.topContract() == nil || fr.topContract().Options["fresh-loop-slices"] == "" {
 				unsup("loop-carried slice value %s (use 'option fresh-loop-slices' when every value it takes is freshly allocated)", p.Name())
 			}
@@ -929,6 +971,14 @@ func (fr *Frame) havocLoop(st *State, h *ssa.BasicBlock, body map[*ssa.BasicBloc
 				st.srcAdr[p.Comment] = false
 			}
 			v.assume("loop-carried slice " + phiName(p) + " is treated as an arbitrary slice with its own backing array at the loop head (option fresh-loop-slices: every value assigned to it is freshly allocated)")
+		case *IfaceV:
+			// an interface value (an error) carried around the loop: arbitrary at the head of an arbitrary iteration
+			nv := &IfaceV{V: v.F.Fresh(nm+"!iface", mkSort("Iface"))}
+			st.env()[p] = nv
+			if p.Comment != "" {
+				st.srcVar[p.Comment] = nv
+				st.srcAdr[p.Comment] = false
+			}
 		default:
 			unsup("loop-carried value of kind %T", cur)
 		}
